@@ -163,3 +163,138 @@ mod verif_kani {
         core::mem::forget(res);
     }
 }
+
+#[cfg(kani)]
+mod verif_kani2 {
+    use super::*;
+
+    fn empty_types() -> Types {
+        Types(HashMap::default())
+    }
+
+    // ---- callee contract of ethdigest::Digest::of: records each input, returns the k-th recorded symbolic digest
+    pub static mut OF_CALLS: usize = 0;
+    pub static mut OF_LEN: [usize; 4] = [0; 4];
+    pub static mut OF_IN: [[u8; 160]; 4] = [[0; 160]; 4];
+    pub static mut OF_OUT: [[u8; 32]; 4] = [[0; 32]; 4];
+    pub fn digest_of_recorder<T: AsRef<[u8]>>(data: T) -> Digest {
+        let d = data.as_ref();
+        unsafe {
+            let k = OF_CALLS;
+            OF_CALLS += 1;
+            if k < 4 {
+                OF_LEN[k] = d.len();
+                let mut i = 0;
+                while i < d.len() && i < 160 {
+                    OF_IN[k][i] = d[i];
+                    i += 1;
+                }
+                Digest(OF_OUT[k])
+            } else {
+                Digest([0; 32])
+            }
+        }
+    }
+    /// loop-free comparison of 32 bytes (two u128 loads), so that harnesses can run with a small unwind bound
+    fn eq32(a: &[u8], b: &[u8]) -> bool {
+        let w = |x: &[u8], o: usize| u128::from_be_bytes(<[u8; 16]>::try_from(&x[o..o + 16]).unwrap());
+        w(a, 0) == w(b, 0) && w(a, 16) == w(b, 16)
+    }
+    /// loop-free recorder for inputs of at most 96 bytes that are a multiple of 32 (arrays of <= 3 words) or 66 bytes (compute)
+    pub fn digest_of_recorder_small<T: AsRef<[u8]>>(data: T) -> Digest {
+        let d = data.as_ref();
+        unsafe {
+            let k = OF_CALLS;
+            OF_CALLS += 1;
+            if k < 4 {
+                OF_LEN[k] = d.len();
+                if d.len() >= 32 {
+                    OF_IN[k][0..32].copy_from_slice(&d[0..32]);
+                }
+                if d.len() >= 64 {
+                    OF_IN[k][32..64].copy_from_slice(&d[32..64]);
+                }
+                if d.len() == 66 {
+                    OF_IN[k][64..66].copy_from_slice(&d[64..66]);
+                }
+                if d.len() >= 96 {
+                    OF_IN[k][64..96].copy_from_slice(&d[64..96]);
+                }
+                Digest(OF_OUT[k])
+            } else {
+                Digest([0; 32])
+            }
+        }
+    }
+    /// 32 symbolic bytes without an array-generation loop
+    fn any32() -> [u8; 32] {
+        let mut o = [0u8; 32];
+        o[..16].copy_from_slice(&kani::any::<u128>().to_be_bytes());
+        o[16..].copy_from_slice(&kani::any::<u128>().to_be_bytes());
+        o
+    }
+    fn set_outs() -> [[u8; 32]; 4] {
+        let o = [any32(), any32(), any32(), any32()];
+        unsafe { OF_OUT = o };
+        o
+    }
+
+    // ---- bool
+    #[kani::proof]
+    #[kani::unwind(34)]
+    #[kani::stub(std::hash::RandomState::new, crate::verif_common::fixed_random_state)]
+    #[kani::stub(alloc::fmt::format, crate::verif_common::no_format)]
+    fn c08_encode_bool() {
+        let b: bool = kani::any();
+        let res = empty_types().encode_value(&MemberKind::Bool, Value::Bool(b));
+        assert!(res.is_ok(), "bool: JSON booleans are accepted");
+        let w = res.as_ref().unwrap();
+        let mut i = 0;
+        while i < 31 {
+            assert!(w[i] == 0, "bool: 32-byte word 0 or 1");
+            i += 1;
+        }
+        assert!(w[31] == b as u8, "bool: 32-byte word 0 or 1");
+        kani::cover!(b);
+        core::mem::forget(res);
+    }
+
+    // ---- dynamic bytes: keccak of the payload
+    static mut B_LEN: usize = 0;
+    static mut B_VAL: [u8; 40] = [0; 40];
+    fn bytes_deserialize_contract<'de, D>(_d: D) -> Result<Vec<u8>, D::Error>
+    where
+        D: Deserializer<'de>,
+    {
+        let len: usize = kani::any();
+        kani::assume(len <= 40);
+        let val: [u8; 40] = kani::any();
+        unsafe {
+            B_LEN = len;
+            B_VAL = val;
+        }
+        Ok(val[..len].to_vec())
+    }
+    #[kani::proof]
+    #[kani::unwind(42)]
+    #[kani::stub(crate::serialization::bytes::deserialize, bytes_deserialize_contract)]
+    #[kani::stub(ethdigest::Digest::of, digest_of_recorder)]
+    #[kani::stub(std::hash::RandomState::new, crate::verif_common::fixed_random_state)]
+    #[kani::stub(alloc::fmt::format, crate::verif_common::no_format)]
+    fn c08_encode_bytes_dynamic() {
+        let outs = set_outs();
+        let res = empty_types().encode_value(&MemberKind::Bytes(None), Value::Null);
+        let (len, val) = unsafe { (B_LEN, B_VAL) };
+        assert!(res.is_ok(), "bytes: any byte string is accepted");
+        assert!(unsafe { OF_CALLS } == 1 && unsafe { OF_LEN[0] } == len, "bytes: encoded as the Keccak-256 of exactly the payload");
+        let mut i = 0;
+        while i < len {
+            assert!(unsafe { OF_IN[0][i] } == val[i], "bytes: encoded as the Keccak-256 of exactly the payload");
+            i += 1;
+        }
+        assert!(*res.as_ref().unwrap() == outs[0], "bytes: the word is that hash");
+        kani::cover!(len == 0);
+        kani::cover!(len == 40);
+        core::mem::forget(res);
+    }
+}
